@@ -114,6 +114,13 @@ def chunks(seq, size=None, dfmt="f", byte_order=None, padval=0.):
     size = chunks.size
   chunk = array.array(dfmt, [0] * size)
   tobytes = chunk.tobytes if hasattr(chunk, "tobytes") else chunk.tostring
+  if byte_order is not None and \
+     struct.pack(byte_order + "h", 1) != struct.pack("h", 1):
+    def tobytes(): # Arrays are stored in the native byte order
+      swapped = array.array(dfmt, chunk)
+      swapped.byteswap()
+      return swapped.tobytes() if hasattr(swapped, "tobytes") else \
+             swapped.tostring()
   idx = 0
 
   for el in seq:
